@@ -81,3 +81,33 @@ def comb_fanin(c, origins):
         for l in conn_ins(n):
             stack.append(l.driver)
     return must, may
+
+
+def rewire_same_counts(c, rng, tries=20, forks_only=False):
+    """Public-API edit that keeps the node and line counts: remove one line and connect another, topologically earlier,
+    node to the pin it freed (no combinational loop is created).  Returns a description or None if nothing suitable was found."""
+    from kyupy.circuit import Line
+    order = topo_nodes(c)
+    pos = {id(n): i for i, n in enumerate(order)}
+    if len(order) != len(c.nodes):
+        return None
+    lines = list(c.lines)
+    for _ in range(tries):
+        l = rng.choice(lines)
+        r, p, d = l.reader, l.reader_pin, l.driver
+        if r.kind == '__fork__' or is_state(r) and p != 0:
+            continue
+        cand = [n for n in c.nodes if n is not d and n is not r and pos[id(n)] < pos[id(r)] and n.kind not in ('output',) and (n.kind == '__fork__' or len(n.outs) < 2)
+                and not (n.kind == '__fork__' and not conn_ins(n) and not any(n is x for x in c.io_nodes))]
+        if is_state(r):
+            cand = [n for n in c.nodes if n is not d and n is not r and n.kind not in ('output',) and (n.kind == '__fork__' or len(n.outs) < 2)]
+        cand = [n for n in cand if n.kind != 'input' or len(n.outs) < 1]
+        if forks_only:
+            cand = [n for n in cand if n.kind == '__fork__']
+        if not cand:
+            continue
+        d2 = rng.choice(cand)
+        l.remove()
+        Line(c, d2, (r, p))
+        return f'line {d.name}->{r.name}.{p} replaced by {d2.name}->{r.name}.{p}'
+    return None
